@@ -1,4 +1,5 @@
 pub mod client;
+pub mod listener;
 pub mod server;
 
 use crate::engine::{CheckSpec, Gen};
@@ -10,6 +11,7 @@ use serde::{Deserialize, Serialize};
 pub enum Scenario {
     Client(client::ClientScn),
     Server(server::ServerScn),
+    Listener(listener::ListenerScn),
 }
 
 impl Scenario {
@@ -18,6 +20,7 @@ impl Scenario {
         match self {
             Scenario::Client(c) => c.valid(),
             Scenario::Server(c) => c.valid(),
+            Scenario::Listener(c) => c.valid(),
         }
     }
 }
@@ -26,6 +29,7 @@ pub fn run_scenario(s: &Scenario, tape: Tape) -> RunOutput {
     match s {
         Scenario::Client(c) => client::run(c, tape, true),
         Scenario::Server(c) => server::run(c, tape, true),
+        Scenario::Listener(c) => listener::run(c, tape),
     }
 }
 
@@ -63,6 +67,10 @@ sgen!(g_server_dups, Dups);
 sgen!(g_server_shutdown, Shutdown);
 sgen!(g_server_extreme, Extreme);
 sgen!(g_server_independent, Independent);
+
+fn g_listener(r: &mut Rng) -> Scenario {
+    Scenario::Listener(listener::gen(r))
+}
 
 const SERVER_REAL: &[&str] = &[
     "tarpc::server::BaseChannel / Requests / InFlightRequest::execute (real)",
@@ -174,6 +182,13 @@ pub fn checks() -> Vec<CheckSpec> {
             q, t,
             "limits L in {0,1,2,3}, bursts of 1-8 requests, cancels, completion orders, sink stalls; interval model of in-flight (definitely/possibly)",
             SERVER_REAL, SERVER_STUB, &[]),
+        spec("C13", "exploration",
+            vec![gen("listener", 1, g_listener)],
+            q, t,
+            "1-3 keys, n in {1,2,3}, batches of arrive/close executed atomically with the listener polled in between at tape-chosen points; 40% of batches make a close and a same-key arrival pending at one poll; reference map key -> live count",
+            &["tarpc::server::limits::channels_per_key::{MaxChannelsPerKey, TrackedChannel} over real BaseChannels (real)", "tokio unbounded mpsc for close notifications (real)"],
+            &["listener stream: scripted queue", "transport under each BaseChannel: inert keyed stub (no traffic needed)", "open/close driver: scripted"],
+            &["drops of admitted channels are atomic harness steps"]),
         spec("C14", "exploration",
             vec![gen("client.general", 2, g_client_general), gen("client.independent", 1, g_client_independent), gen("client.abandon", 1, g_client_abandon), gen("server.general", 2, g_server_general), gen("server.independent", 1, g_server_independent), gen("server.limit", 1, g_server_limit)],
             q, t,
